@@ -279,6 +279,9 @@ func runC07(t *testing.T, tape *sim.Tape, tier string) *Outcome {
 		o.stat("runs_misbehaving_handler", 1)
 	}
 	cl.Sticky = tape.Draw(4, "sticky")
+	// a quarter of the runs switch on the scheduling points that the build inserts in front of every lock
+	// acquisition and sync.Map access (interleavings finer than the hand-placed yield points)
+	cl.AutoYields = tape.Draw(4, "autoyields") == 3
 	// simulated time passes at seed-chosen moments between the other events (timeouts, deadlines and timers of the
 	// code under test fire against this clock)
 	for i := tape.Draw(4, "nticks"); i > 0; i-- {
